@@ -42,7 +42,22 @@ def main():
         else:
             ctx.broken = False
         # 3. correspondence / semantic checks against the implementation
-        mod.run(ctx)
+        if os.environ.get('VF_TRACE'):
+            # development aid: record which library functions the check reaches (written to build/trace_<prop>.json)
+            called = set()
+            root = os.path.realpath(os.path.join(core.REPO, 'src', 'openfermion'))
+            def prof(frame, event, arg):
+                if event == 'call':
+                    fn = frame.f_code.co_filename
+                    if fn.startswith(root) and not fn.endswith('_test.py'): called.add((os.path.relpath(fn, root), frame.f_code.co_name, frame.f_code.co_firstlineno))
+            sys.setprofile(prof)
+            try: mod.run(ctx)
+            finally:
+                sys.setprofile(None)
+                import json as _json
+                _json.dump(sorted(called), open(os.path.join(core.VERIF, 'build', 'trace_%s.json' % prop), 'w'))
+        else:
+            mod.run(ctx)
         if ctx.broken and not ctx.violations:
             ctx.violation('%s: proof obligations no longer check (%s) and no failing input was found by the search' %
                           (prop, broken or 'Props/%s.v' % prop),
